@@ -683,6 +683,17 @@ impl Hub {
                 );
             } else if best.is_some_and(|b| b + 1 > view) {
                 self.probe("certificate_ahead_of_view");
+                // A certificate from the future of the current view can only be learned through
+                // a timeout certificate into which a Byzantine validator put a high certificate
+                // newer than the view it timed out in.  Without Byzantine validators every view is
+                // entered on a certificate for exactly the preceding view.
+                if self.committee.byz_weight() == 0 {
+                    self.violation(
+                        "C05",
+                        "view_not_preceded_by_its_certificate",
+                        format!("n{node}.{inc} is in view {view} while holding certificates hc {hc:?} ht {ht:?}: the view was not entered on a certificate for the preceding view"),
+                    );
+                }
             }
         }
         if let Some(q) = &s.high_commit_qc {
@@ -690,6 +701,32 @@ impl Hub {
         }
         if let Some(q) = &s.high_timeout_qc {
             self.judge_timeout_qc(node, q, "holds");
+        }
+        // C05: certificates carried by an *accepted* new-view / proposal are adopted when newer
+        // (commit certificate first, also the one embedded in a timeout certificate).
+        if let Event::Handled { error: None, msg, .. } = &s.event {
+            let validator::ConsensusMsg::V2(m) = &msg.msg;
+            let j = match m {
+                v2::ChonkyMsg::ReplicaNewView(nv) => Some(&nv.justification),
+                v2::ChonkyMsg::LeaderProposal(p) => Some(&p.justification),
+                _ => None,
+            };
+            if let Some(j) = j {
+                let (jc, jt) = match j {
+                    v2::ProposalJustification::Commit(q) => (Some(q.view().number.0), None),
+                    v2::ProposalJustification::Timeout(t) => (t.high_qc().map(|q| q.view().number.0), Some(t.view.number.0)),
+                };
+                if jc > hc || jt > ht {
+                    self.violation(
+                        "C05",
+                        "certificate_not_adopted",
+                        format!(
+                            "n{node}.{inc} accepted {} carrying a commit certificate for view {jc:?} / timeout certificate for view {jt:?}, but holds hc {hc:?} ht {ht:?} afterwards",
+                            describe(msg)
+                        ),
+                    );
+                }
+            }
         }
         // C16 (replica half): bookkeeping bounded by the committee size alone.
         let bounds = [
@@ -721,7 +758,7 @@ impl Hub {
         let (label, mv, err) = match &s.event {
             Event::Start => ("start", 0u64, 0u64),
             Event::Timeout => ("timer", 0, 0),
-            Event::Handled { label, view: mv, error } => (
+            Event::Handled { label, view: mv, error, .. } => (
                 *label,
                 if *mv < view { 1 } else if *mv == view { 2 } else { 3 },
                 error.as_ref().map(|e| crate::kit::hash_bytes(e.as_bytes())).unwrap_or(0),
@@ -741,7 +778,56 @@ impl Hub {
     }
 
     /// C05 oracle 3: a new-view / timeout / proposal emitted by a correct node is self-justifying.
-    pub fn check_self_justifying(&self, node: usize, inc: u64, msg: &validator::Signed<validator::ConsensusMsg>, cur_view: Option<u64>) {
+    pub fn check_self_justifying(
+        &self,
+        node: usize,
+        inc: u64,
+        msg: &validator::Signed<validator::ConsensusMsg>,
+        cur_view: Option<u64>,
+        snap: Option<&zksync_consensus_bft::verif::Snapshot>,
+    ) {
+        // The message carries the highest certificate the replica holds: commit certificate
+        // preferred on a tie (new-view), the replica's high vote and high commit certificate
+        // (timeout vote).
+        if let Some(s) = snap {
+            let validator::ConsensusMsg::V2(m) = &msg.msg;
+            match m {
+                v2::ChonkyMsg::ReplicaNewView(nv) => {
+                    let hcv = s.high_commit_qc.as_ref().map(|q| q.view().number.0);
+                    let htv = s.high_timeout_qc.as_ref().map(|q| q.view.number.0);
+                    let want_commit = hcv >= htv;
+                    let ok = match &nv.justification {
+                        v2::ProposalJustification::Commit(q) => want_commit && Some(q) == s.high_commit_qc.as_ref(),
+                        v2::ProposalJustification::Timeout(q) => !want_commit && Some(q) == s.high_timeout_qc.as_ref(),
+                    };
+                    if !ok {
+                        self.violation(
+                            "C05",
+                            "new_view_not_justified_by_highest_certificate",
+                            format!("n{node}.{inc} emits {} while holding hc {hcv:?} ht {htv:?} (commit certificate preferred on a tie)", describe(msg)),
+                        );
+                    }
+                    if self.committee.byz_weight() == 0 && nv.view().number != s.view {
+                        self.violation(
+                            "C05",
+                            "new_view_for_another_view",
+                            format!("n{node}.{inc} emits a new-view for view {} while being in view {}", nv.view().number.0, s.view.0),
+                        );
+                    }
+                }
+                v2::ChonkyMsg::ReplicaTimeout(t) => {
+                    if t.high_qc != s.high_commit_qc || t.high_vote != s.high_vote || t.view.number != s.view {
+                        self.violation(
+                            "C05",
+                            "timeout_vote_does_not_carry_state",
+                            format!("n{node}.{inc} emits {} but its state is view {} hc {:?} high vote {:?}", describe(msg), s.view.0,
+                                s.high_commit_qc.as_ref().map(|q| q.view().number.0), s.high_vote.as_ref().map(|v| v.view.number.0)),
+                        );
+                    }
+                }
+                _ => {}
+            }
+        }
         let validator::ConsensusMsg::V2(m) = &msg.msg;
         let c = &self.committee;
         let g = c.genesis.hash();
